@@ -44,8 +44,11 @@ func c03Monitor(st *engine.Step) {
 			}
 		}
 	}
-	if o.Probe != nil && o.Probe.Ran && o.Probe.Which == "prot" {
+	if o.Probe != nil && o.Probe.Ran && (o.Probe.Which == "prot" || o.Probe.Which == "guard") {
 		who := o.Probe.UserPID
+		if who == "" {
+			who = o.UIDBefore()
+		}
 		if r, ok := st.Pre.DB.Users[who]; ok {
 			if m := c04Get(st.Pre.Truth, who); cfg.Has("lock") && (lockedAt(r, st.Pre.Now) || m.lockedUntil.After(st.Pre.Now)) {
 				st.Report(engine.Violation{Rule: "C03/middleware-passed-locked-user", Detail: "lock.Middleware passed a request of locked user " + who})
@@ -101,6 +104,17 @@ func c03Cover(st *engine.Step) []string {
 			if !r.Confirmed {
 				c = append(c, "refused-while-unconfirmed:"+kind)
 			}
+		}
+	}
+	if kind == "guard" {
+		f := ""
+		if len(o.FaultFired) > 0 {
+			f = "+fault"
+		}
+		if o.Probe != nil && o.Probe.Ran {
+			c = append(c, "guard:ran"+f)
+		} else {
+			c = append(c, "guard:refused"+f)
 		}
 	}
 	if kind == "prot" {
@@ -227,6 +241,12 @@ func c03Scenarios(tier string) []engine.Scenario {
 			}
 			a = append(a, confirmActs(w, b, []string{U2, oauthPID})...)
 			a = append(a, simple("prot(B1)", func(s *world.Stack) world.Req { return flows.Prot(b) }))
+			if w.Browsers[b].Session["uid"] != "" {
+				// the two middlewares on their own (they load the session user themselves), fault-free
+				// and with that load failing: a backend failure must not open the route
+				a = append(a, simple("guard(B1)", func(s *world.Stack) world.Req { return flows.Guard(b) }))
+				a = append(a, flows.AFault("guard(B1)", "db.Load", func(s *world.Stack, _ *world.World) world.Req { return flows.Guard(b) }))
+			}
 			a = append(a, simple("logout(B1)", func(s *world.Stack) world.Req { return flows.Logout(s, b) }))
 			// B2: another client failing logins against L, and probing
 			a = append(a, flows.A("login(B2,u1,pw:wrong)", func(s *world.Stack, _ *world.World) world.Req {
@@ -239,7 +259,7 @@ func c03Scenarios(tier string) []engine.Scenario {
 			a = append(a, waitActs(time.Hour-time.Second, 2*time.Second)...)
 			return a
 		}
-		sc.Need = []string{"refused-while-locked:login", "refused-while-unconfirmed:login", "prot:ran", "prot:refused-with-user"}
+		sc.Need = []string{"refused-while-locked:login", "refused-while-unconfirmed:login", "prot:ran", "prot:refused-with-user", "guard:ran", "guard:refused", "guard:refused+fault"}
 		if v.fa == "" {
 			sc.Need = append(sc.Need, "login-ok:login")
 		}
